@@ -30,12 +30,22 @@ class C07(c01.C01):
     def make_case(self, rng, idx, tier):
         case = c01.gen_case(rng, idx, tier, emphasis='fx')
         case['twin_without_ext'] = (idx % 4 == 3)
+        if case['twin_without_ext']:
+            # a spec whose twin without an external sector is well defined: no gold, no numeraire-zone sector,
+            # at least one cross-zone flow
+            for _ in range(40):
+                sp = case['spec']
+                ok = (self.cross_flows(sp) > 0 and not sp.get('row') and
+                      not any(z['gov']['form'] in ('gold', 'gold_cb') for z in sp['zones']))
+                if ok:
+                    break
+                case['spec'] = M.gen_spec(rng, n_zones=2, ext=True)
         return case
 
     def run_case(self, case):
         spec = case['spec']
         cross = self.cross_flows(spec)
-        if case.get('twin_without_ext') and cross and not any(z['gov']['form'] in ('gold', 'gold_cb') for z in spec['zones']):
+        if case.get('twin_without_ext') and cross and not spec.get('row') and not any(z['gov']['form'] in ('gold', 'gold_cb') for z in spec['zones']):
             return self.run_refusal(case)
         res = c01.solve_and_judge(case, self.which, in_situ=False)
         if res['verdict'] in ('held', 'violated'):
@@ -44,7 +54,7 @@ class C07(c01.C01):
 
     @staticmethod
     def cross_flows(spec):
-        zone_of = {}
+        zone_of = {'EXT': 'NUMERAIRE'}
         for z in spec['zones']:
             for c in z['countries']:
                 zone_of[c['key']] = z['cur']
